@@ -143,8 +143,14 @@ Check(r, idx) ==
         \* C11 "reads of fresh entries trigger nothing": with the clock frozen after the preloaded entry became due, a value that a
         \* reload has just produced is fresh for an hour - no reload may start from it ("reloadof" = the value a Reload was handed)
         fromFresh == {e \in ev : e.t = "reloadof" /\ e.v \in loadedVals(e.k)}
+        \* ... and where nothing is due at all (refresh an hour after the write, the clock frozen, no explicit Refresh / BulkRefresh caller) no
+        \* reload starts, whatever the writers do: a read that meets a node which a concurrent write has just retired has not met a stale entry
+        noRefreshDue == r.sc.refresh = 1 /\ r.sc.stale = 0 /\ r.sc.refreshers = 0 /\ r.sc.bulkref = 0 /\ r.sc.expiry = 0 /\ r.sc.dead = 0
+                        /\ r.sc.inloader = <<>> /\ ~\E w \in wcalls : w.op = "advance"
+        anyReload == {e \in ev : e.t = "reloadof"}
     IN
-    (IF r.sc.stale = 1 /\ undisturbed /\ fromFresh # {} THEN <<F(idx, "C11.reload_triggered_by_fresh_entry", fromFresh)>> ELSE <<>>)
+    (IF noRefreshDue /\ anyReload # {} THEN <<F(idx, "C11.reload_started_although_nothing_is_due", anyReload)>> ELSE <<>>)
+    \o (IF r.sc.stale = 1 /\ undisturbed /\ fromFresh # {} THEN <<F(idx, "C11.reload_triggered_by_fresh_entry", fromFresh)>> ELSE <<>>)
     \o (IF undisturbed /\ notCached # {} THEN <<F(idx, "C10.returned_value_not_cached", notCached)>> ELSE <<>>)
     \o (IF deadQuiet /\ droppedBySweep # {} THEN <<F(idx, "C10.load_dropped_by_sweep_of_expired_entry", droppedBySweep)>> ELSE <<>>)
     \o (IF swappedOther # {} THEN <<F(idx, "C11.reload_replaced_a_value_it_was_not_handed", <<swappedOther, r.final>>)>>
